@@ -194,7 +194,7 @@ func obsView(v *view) string {
 
 // addCase writes one experiment as a Coq case for Model/Crash.v.
 func addCase(sh *shared, o *observation) {
-	if !o.Reached || o.Unit == "" && o.Acked || strings.HasPrefix(o.AtRestart.Err, "daemon does not come back") ||
+	if !o.Reached || o.HeldLate || o.Unit == "" && o.Acked || strings.HasPrefix(o.AtRestart.Err, "daemon does not come back") ||
 		(o.Cycle2 != nil && strings.HasPrefix(o.Cycle2.Err, "daemon does not come back")) {
 		return
 	}
